@@ -6,6 +6,8 @@ import (
 	"go/token"
 	"go/types"
 	"math/big"
+	"regexp"
+	"strings"
 
 	"golang.org/x/tools/go/ssa"
 
@@ -244,5 +246,59 @@ func checkMaskWrittenWhole(c *core.Ctx) {
 				}
 			}
 		}
+	}
+}
+
+// R03.29: the carry of an unsigned add / subtract is an unsigned predicate.
+func checkUnsignedCarry(c *core.Ctx, handlers []handlerRef) {
+	st := c.Rule("R03.29", "the VCC / SDST result of v_add_u32, v_sub_u32, v_subrev_u32, v_addc_u32, v_subb_u32, v_subbrev_u32 (and their _co_ names) is the unsigned carry or borrow: the handlers dispatched for these mnemonics (decode table -> dispatch switch), including the SDWA and VOP3 variants they call, contain no ordering comparison of int32 / int64 operands - a signed-overflow test there reports 0x7FFFFFFF + 1 as a carry and 0xFFFFFFFF + 1 as none", 12)
+	carryName := regexp.MustCompile(`^v_(add|sub|subrev|addc|subb|subbrev)(_co)?_u32$`)
+	seen := map[*ssa.Function]bool{}
+	for _, h := range handlers {
+		all := len(h.insts) > 0
+		for _, n := range h.insts {
+			if !carryName.MatchString(baseMnemonic(n)) {
+				all = false
+			}
+		}
+		if !all {
+			continue
+		}
+		root := c.SSAFunc(h.alu.pkg, h.alu.typ+"."+h.name)
+		if root == nil {
+			continue
+		}
+		var visit func(fn *ssa.Function, depth int)
+		visit = func(fn *ssa.Function, depth int) {
+			if seen[fn] || depth > 2 || len(fn.Blocks) == 0 {
+				return
+			}
+			seen[fn] = true
+			st.Instances++
+			c.MarkAnalysed(fn)
+			bad := 0
+			for _, b := range fn.Blocks {
+				for _, in := range b.Instrs {
+					switch x := in.(type) {
+					case *ssa.BinOp:
+						switch x.Op {
+						case token.LSS, token.LEQ, token.GTR, token.GEQ:
+							if bt, ok := x.X.Type().Underlying().(*types.Basic); ok && (bt.Kind() == types.Int32 || bt.Kind() == types.Int64) {
+								bad++
+								if bad == 1 {
+									c.ReportAt("R03.29", fn, x.Pos(), "signed-test-in-unsigned-carry", core.FuncName(fn)+" (reached from the handler of "+strings.Join(h.insts, ", ")+") decides the carry bit with a signed comparison: v_add_u32 of 0xFFFFFFFF and 1 gives carry 0, and 0x7FFFFFFF + 1 gives carry 1; the regular form of the same instruction uses the unsigned sum")
+								}
+							}
+						}
+					case *ssa.Call:
+						if cal := x.Call.StaticCallee(); cal != nil && cal.Signature.Recv() != nil && cal.Pkg == fn.Pkg && strings.HasPrefix(cal.Name(), "run") {
+							visit(cal, depth+1)
+						}
+					}
+				}
+			}
+			st.Ob(bad == 0)
+		}
+		visit(root, 0)
 	}
 }
